@@ -43,7 +43,10 @@ def case(draw):
                                          "after_for_break", "after_while_break", "after_for_continue", "after_nested_break", "in_for_after_break_of_inner"]))
             form = draw(st.sampled_from(["call_eq", "call_lt", "literal", "and", "not"]))
             asserts.append({"x": x, "truth": truth, "wrap": wrap, "form": form})
-        funcs.append({"k": k, "c": c, "shadow": has_shadow, "asserts": asserts, "ext": ext})
+        # contracts: a clause that is violated exactly by the calls whose result equals the clause's constant
+        contract = draw(st.sampled_from([None, None, None, "ensures", "ensures", "requires"])) if (i > 0 and not ext) else None
+        funcs.append({"k": k, "c": c, "shadow": has_shadow, "asserts": asserts, "ext": ext, "contract": contract,
+                      "x0": draw(st.integers(-9, 9)), "tail": draw(st.booleans())})
     return {"funcs": funcs}
 
 
@@ -75,6 +78,7 @@ def build(c):
     missing = []
     unexec_false = False
     nexec_false = 0
+    contract_hits = [0]
     for fi, f in enumerate(c["funcs"]):
         if f.get("ext") and not use_ext:
             f = dict(f, ext=False)
@@ -86,7 +90,13 @@ def build(c):
             # a function that calls an extern function directly: nanoc skips its shadow block (its assertions are not executed)
             L.append("fn h_%d(a: int) -> int {\n    return (+ (* (labs a) %d) %d)\n}" % (fi, f["k"], f["c"]))
         else:
-            L.append("fn h_%d(a: int) -> int {\n    return (+ (* a %d) %d)\n}" % (fi, f["k"], f["c"]))
+            clause = ""
+            if f.get("contract") == "ensures":
+                clause = "\n    ensures (!= result %d)\n" % (f["k"] * f["x0"] + f["c"])
+            elif f.get("contract") == "requires":
+                clause = "\n    requires (!= a %d)\n" % f["x0"]
+            body_line = "(+ (* a %d) %d)" % (f["k"], f["c"]) if f.get("tail") else "return (+ (* a %d) %d)" % (f["k"], f["c"])
+            L.append("fn h_%d(a: int) -> int%s{\n    %s\n}" % (fi, clause if clause else " ", body_line))
         if not f["shadow"]:
             missing.append("h_%d" % fi)
             continue
@@ -132,6 +142,14 @@ def build(c):
                 body.append("    assert (== (%s 4) 4)" % cn)
             if f.get("ext"):
                 executed = False
+            # a call made by this assertion that violates the function's contract is a failed (injected) assertion of the
+            # shadow test that is running, whatever the truth of the assertion itself
+            if executed and a["form"] != "literal" and f.get("contract"):
+                bad = (f["k"] * a["x"] + f["c"] == f["k"] * f["x0"] + f["c"]) if f["contract"] == "ensures" else (a["x"] == f["x0"])
+                if bad:
+                    fails = True
+                    nexec_false += 1
+                    contract_hits[0] += 1
             if not a["truth"]:
                 if executed:
                     fails = True
